@@ -471,3 +471,27 @@ def run_case(case, rec, _ctx_out=None):
     _locate_boundaries(ctx, Es, L1s, L2s)
     _broadcast_and_convert(ctx, Es, L1s, L2s, per_pixel_energy=False)
     _broadcast_and_convert(ctx, Es, L1s, L2s, per_pixel_energy=True)
+
+
+# ---------------------------------------------------------------------------------------
+# layout / reuse exploration shared by the kernel properties (props/layouts.py): every combination of operand layouts
+# (0-d, 1-d over either of two dims, 2-d, 2-d transposed) must equal the element-wise 0-d calls, also after every operand
+# has been overwritten in place and the kernel is called again.
+
+from props import layouts as _layouts  # noqa: E402
+
+_LAYOUT_SITES = ['conversion.tof.energy_transfer_direct_from_tof', 'conversion.tof.energy_transfer_indirect_from_tof']
+_cases_main, _run_case_main = cases, run_case
+RULE = RULE + ' Layout cases: every combination of operand layouts (0d / 1-d a / 1-d b / 2-d ab / 2-d stored ba) per kernel x unit-dtype variant, each followed by an in-place update of all operands and a second call.'
+REQUIRED_CLASSES = [*REQUIRED_CLASSES, 'layout_ok', 'reuse_after_inplace_update_ok', 'layout_transposed_operand', 'repeat_call_identical']
+
+
+def cases(tier):
+    return _cases_main(tier) + _layouts.cases_for(_LAYOUT_SITES, variants=(0, 1, 2, 3, 4) if tier == 'thorough' else (0, 1, 3))
+
+
+def run_case(case, rec):
+    if case.get('kind') == 'layout':
+        _layouts.run_layout_case(case, rec)
+    else:
+        _run_case_main(case, rec)
